@@ -76,6 +76,11 @@ def _sites(tier):
         "for x in (1, 3, 2):\n        assert x <= snapshot()", "s = snapshot()\n    for x in (2, 3, 1):\n        assert x <= s['k']\n        assert x >= s['j']", "for x in (1, 2, 1):\n        assert x in snapshot([3])",
         "s = snapshot()\n    assert s['a'] == 1\n    assert 2 in s['b']\n    assert 3 <= s['c']",
         "s = snapshot({'a': 1, 'z': 0})\n    assert s['a'] == 2\n    assert s['b']['c'] == 3",
+        # the compared object is changed by the test after the comparison: both sessions see the same value at comparison time
+        "v = ('rows', [1])\n    assert v == snapshot()\n    v[1].append(2)", "v = [1, {'k': (2, [3])}]\n    assert v == snapshot()\n    v[1]['k'][1].append(4)",
+        "v = (1, [2])\n    assert v <= snapshot()\n    v[1].append(0)", "v = (frozenset([1]), [2])\n    assert v in snapshot()\n    v[1].clear()",
+        "v = ('a', {'b': 1})\n    assert snapshot()['k'] == v\n    v[1]['c'] = 2", "v = ([1],)\n    assert v == snapshot(([0],))\n    v[0].append(2)",
+        "v = {'t': (1, [2])}\n    for _ in (1, 2):\n        assert v == snapshot()\n    v['t'][1].append(3)",
     )]
     return sites
 
